@@ -28,6 +28,7 @@ EXPLANATION = (
     ' Indexing text decoded from a response at a fixed position is an IndexError source unless a length test guards it.'
     " (R6) no method of the protocol classes calls a method / reads an attribute on self.<attr> right after a test found it unset, on any path including the exception handlers; an argument whose inferred type cannot match the parameter's annotation is a TypeError source."
     ' (R7) read_device_info() uses an attribute that __init__ leaves None as text only after assigning it on the same path (model predicates summarised); (R8) definite assignment: no local is read before it is assigned on any path of the inverter / protocol classes and of the entry functions connect / discover / search_inverters (discover, whose paths are too many, by a may-assigned dataflow: a read no assignment can have reached).'
+    ' (R9, shared with C04.R12) in-flight fields are bound before an attribute of them is used; (R10) self._transport is used in send_request only right after the awaited connect or under a test of it since the last suspension; (R11) no computed-key lookup in a fixed-key dictionary of the protocol object.'
 )
 
 DOCUMENTED_EXPLICIT = ("ValueError", "NotImplementedError")
@@ -68,6 +69,15 @@ def check(ctx: Ctx, rep: Report):
     r7_unset_text(ctx, rep)
     rep.rule("C09.R6", "no method of the protocol layer uses an attribute of self it has just found unset (AttributeError on None)", 1)
     r6_none(ctx, rep)
+    rep.rule("C09.R9", "a request that fails before anything was sent fails as documented: no attribute of self.command / self.response_future is used before _send_request bound them on the path (AttributeError on a fresh object; shared with C04.R12)", 2)
+    from .proto import inflight_fields_bound
+    inflight_fields_bound(ctx, rep, "C09.R9")
+    rep.rule("C09.R10", "send_request never uses self._transport after a suspension without having re-established or tested it: the loop may have dropped it meanwhile (AttributeError on None)", 2)
+    from .proto import transport_present_when_used
+    transport_present_when_used(ctx, rep, "C09.R10")
+    rep.rule("C09.R11", "bookkeeping dictionaries of the protocol object are never read with a computed key that may be missing (KeyError in a callback or in send_request)", 2)
+    from .proto import dict_lookups_total
+    dict_lookups_total(ctx, rep, "C09.R11")
     rep.rule("C09.R3", "_read_from_socket resets the failure counter on success, increments it once before every RequestFailedException and passes it on; execute is reached only through it", 5)
     mr = net_mayraise(ctx)
     inverr = prog.cls("InverterError")
